@@ -152,7 +152,7 @@ class ValidRange(Job):
 
 
 def jobs(tier):
-    N = 4 if tier == "quick" else 6
+    N = 4 if tier == "quick" else 8
     out = []
     for n in range(0, N + 1):
         for suspect in (False, True):
@@ -163,7 +163,7 @@ def jobs(tier):
         for length in (0, 1, 3):
             out.append(GrossRangeBadSpan(which, length))
     for kind in ("float64", "datetime64"):
-        for n in range(0, (3 if tier == "quick" else 5) + 1):
+        for n in range(0, (3 if tier == "quick" else 6) + 1):
             for si in (True, False):
                 for ei in (True, False):
                     out.append(ValidRange(n, kind, si, ei))
@@ -185,7 +185,7 @@ ASSUMPTIONS = ["environment model of numpy.ma (symex/symnp.py) validated per pat
 
 
 def bounds(tier):
-    return {"series_length": "0..4" if tier == "quick" else "0..6", "valid_range_length": "0..3" if tier == "quick" else "0..5",
+    return {"series_length": "0..4" if tier == "quick" else "0..8", "valid_range_length": "0..3" if tier == "quick" else "0..6",
             "spans": "all four numbers symbolic, any order", "inclusivity": "all 4 settings enumerated",
             "dtypes": ["float64", "datetime64[ns]"]}
 
